@@ -77,6 +77,12 @@ pub struct HistCase {
     pub lifetimes: Vec<Lifetime>,
     /// repeat the whole list of lifetimes this many times (cycle counts for C12)
     pub repeat: u32,
+    /// the whole history runs from tear-down code executed while the thread unwinds from a
+    /// failed test body (`std::thread::panicking()` is true throughout): installation, redirection,
+    /// restoration, release and flushing are promised all the same; only call-count verdicts at
+    /// scope exit are not raised there
+    #[serde(default)]
+    pub in_teardown: bool,
 }
 
 #[derive(Serialize, Deserialize, Clone, Debug, Default)]
@@ -238,6 +244,14 @@ fn careful_call(t: &Target, expect_dest: Option<u64>, text: (u64, u64), pristine
 }
 
 pub fn execute(c: &HistCase, opts: &Opts) -> HistObs {
+    if c.in_teardown {
+        crate::worker::while_unwinding(|| execute_inner(c, opts))
+    } else {
+        execute_inner(c, opts)
+    }
+}
+
+fn execute_inner(c: &HistCase, opts: &Opts) -> HistObs {
     let mut o = HistObs { text: text_range(), ..Default::default() };
     ip::plan_reset();
     ip::log_clear();
@@ -686,6 +700,6 @@ pub fn strategy_all(max_lifetimes: usize, max_steps: usize, synth_bias_last_slot
                 squat: l.squat,
             })
             .collect();
-        HistCase { synth, lifetimes, repeat: 1 }
+        HistCase { synth, lifetimes, repeat: 1, in_teardown: focus % 11 == 3 }
     })
 }
